@@ -10,13 +10,18 @@ ExitMainLoop and other exceptions raised from any callback.  The oracle is spec/
 (an acceptor over the recorded trace, written from the statement).
 
 Secondary: the same script language (a) against urwid.ZMQEventLoop under the same virtual clock (its
-zmq.Poller replaced by a scripted one that keeps pyzmq's integer-millisecond timeout), (b) in real
-time (unit 30 ms, os.pipe) against SelectEventLoop, AsyncioEventLoop, TornadoEventLoop,
-TwistedEventLoop (a fresh SelectReactor per script), TrioEventLoop and ZMQEventLoop, one forked child
-per script; the blocking primitive of each loop is wrapped *in the child process only* so that "the
-loop blocks" is observed, not inferred from timing (the oracle uses no time gaps except "not before
-the due time", so a loaded machine cannot produce a false alarm).  Real-time failures are re-run
-twice; the detail carries seen_in_runs k/3 (races in a third-party scheduler need not reproduce).
+zmq.Poller replaced by a scripted one that keeps pyzmq's integer-millisecond timeout), (b) "vtime"
+boards: SelectEventLoop, AsyncioEventLoop, TornadoEventLoop, TwistedEventLoop (a fresh SelectReactor
+per script), TrioEventLoop and ZMQEventLoop with their REAL third-party scheduler and real os.pipe
+descriptors, one forked child per script, but on a *virtual clock*: in the child only, the clock each
+library reads (loop.time, IOLoop.time, reactor.seconds, a trio.abc.Clock, the module's `time`) is a
+counter, and the library's blocking primitive is replaced by "poll the real descriptors without
+blocking; if nothing is readable the wait lasts exactly its timeout on the counter".  Nothing sleeps
+and nothing races, so the outcome does not depend on machine load; every wait the loop asks for is
+still observed with the timeout it asked for.  (c) thorough tier only: the former real-time boards
+(unit 30 ms, real sleeps).  They depend on the wall clock and on how the OS schedules the child --
+on a loaded machine two alarms 30 ms apart become overdue together and a scheduler that orders
+overdue timers arbitrarily fails or passes by chance -- so all their checks are INFORMATIONAL.
 """
 from __future__ import annotations
 
@@ -406,7 +411,13 @@ def run_virtual(kind, scen):
         from urwid.event_loop import zmq_loop as _zl
 
         saved_t = _zl.time
-        _zl.time = types.SimpleNamespace(time=world.time)
+
+        def vsleep(d):  # a loop that sleeps blocks: recorded like a wait (descriptor sets not visible)
+            t0 = world.now
+            world.sleep(d)
+            trace.append(["select", d, None, None, t0, world.now])
+
+        _zl.time = types.SimpleNamespace(time=world.time, sleep=vsleep)
 
         def restore():
             _zl.time = saved_t
@@ -485,21 +496,62 @@ def available_loops():
     return out
 
 
-def _build_real(kind, trace, now, scen=None):
-    """Returns (loop, cleanup).  The blocking primitive of the loop is wrapped to record every wait."""
+class VClock:
+    """Virtual clock of a forked child ("vtime" boards): it advances only when the loop waits with
+    nothing readable (by exactly the timeout it asked for) or when the script 'sleeps'."""
+
+    FOREVER = 3600.0  # a wait this long with nothing readable is quiescence for ever (trio caps at 24 h)
+    MAX_WAITS = 5000
+
+    def __init__(self, start=1000.0):
+        self.now = start
+        self.waits = 0
+        self.bail = None  # set by the child: called with a reason when the loop can never wake up
+
+    def time(self):
+        return self.now
+
+    def advance(self, d):
+        if d > 0:
+            self.now += d
+
+    def waited(self, timeout, got_events, registered=True):
+        """Bookkeeping of one non-blocking poll that stands for a wait of `timeout` seconds."""
+        self.waits += 1
+        if self.waits > self.MAX_WAITS:
+            self.bail(f"more than {self.MAX_WAITS} waits of the blocking primitive (the loop spins)")
+        if got_events or not registered:
+            return
+        if timeout is None or timeout >= self.FOREVER:
+            self.bail("the loop waits for ever: nothing is readable and no timer is pending")
+        self.advance(timeout)
+
+
+def _build_real(kind, trace, now, scen=None, vclock=None):
+    """Returns (loop, cleanup).  The blocking primitive of the loop is wrapped to record every wait.
+    With `vclock` (vtime boards) the loop's clock is the virtual one and the blocking primitive polls
+    the real descriptors with timeout 0, the wait "lasting" its timeout on the virtual clock when
+    nothing is readable: the third-party scheduler and the descriptors are real, time is not."""
 
     def rec(timeout):
         ev = ["select", timeout, None, None, now(), None]
         trace.append(ev)
         return ev
 
+    def vt(timeout, poll0, got=bool):
+        r = poll0()
+        vclock.waited(timeout, got(r))
+        return r
+
     if kind == "select":
-        saved = _sl.selectors
+        if vclock is not None:
+            _sl.time = types.SimpleNamespace(time=vclock.time)
 
         class RecSelector(selectors.DefaultSelector):
             def select(self, timeout=None):
                 ev = rec(timeout)
-                r = super().select(timeout)
+                sup = super()
+                r = sup.select(timeout) if vclock is None else vt(timeout, lambda: sup.select(0))
                 ev[5] = now()
                 return r
 
@@ -511,10 +563,12 @@ def _build_real(kind, trace, now, scen=None):
         aloop = asyncio.new_event_loop()
         sel = aloop._selector
         orig = sel.select
+        if vclock is not None:
+            aloop.time = vclock.time  # call_later / _run_once read the clock through self.time()
 
         def select(timeout=None):
             ev = rec(timeout)
-            r = orig(timeout)
+            r = orig(timeout) if vclock is None else vt(timeout, lambda: orig(0))
             ev[5] = now()
             return r
 
@@ -528,7 +582,10 @@ def _build_real(kind, trace, now, scen=None):
         from urwid.event_loop.tornado_loop import TornadoEventLoop
 
         asyncio.set_event_loop(aloop)
-        return TornadoEventLoop(tornado.ioloop.IOLoop.current()), None
+        ioloop = tornado.ioloop.IOLoop.current()
+        if vclock is not None:
+            ioloop.time = vclock.time  # IOLoop.call_at turns its deadline into a delay with self.time()
+        return TornadoEventLoop(ioloop), None
     if kind == "twisted":
         from twisted.internet.selectreactor import SelectReactor
 
@@ -536,6 +593,12 @@ def _build_real(kind, trace, now, scen=None):
 
         reactor = SelectReactor()
         orig = reactor.doIteration
+        if vclock is not None:
+            import twisted.internet.selectreactor as _sr
+
+            reactor.seconds = vclock.time  # callLater / timeout() / runUntilCurrent read self.seconds()
+            real_select = _sr._select
+            _sr._select = lambda r, w, e, timeout=None: vt(timeout, lambda: real_select(r, w, e, 0), lambda res: any(res))
 
         def do_iteration(timeout):
             ev = rec(None if timeout is None else float(timeout))
@@ -558,21 +621,46 @@ def _build_real(kind, trace, now, scen=None):
         rev = (scen or {}).get("order", "asc") == "desc"
         _trun._r = types.SimpleNamespace(random=(lambda: 0.0) if rev else (lambda: 1.0), shuffle=lambda batch: None, uniform=lambda a, b: a)
         orig_run = trio.run
+        extra = {}
+        if vclock is not None:
+
+            class VTrioClock(trio.abc.Clock):
+                def start_clock(self):
+                    pass
+
+                def current_time(self):
+                    return vclock.now
+
+                def deadline_to_sleep_time(self, deadline):
+                    return deadline - vclock.now
+
+            extra["clock"] = VTrioClock()
+            iom = _trun.TheIOManager  # the I/O manager class of this platform (EpollIOManager on Linux)
+            real_get = iom.get_events
+            iom.get_events = lambda self, timeout: vt(timeout, lambda: real_get(self, 0))
 
         class RecInstrument(trio.abc.Instrument):
             def before_io_wait(self, timeout):
                 rec(timeout)
 
         def run(fn, *a, instruments=(), **kw):
-            return orig_run(fn, *a, instruments=[*instruments, RecInstrument()], **kw)
+            return orig_run(fn, *a, instruments=[*instruments, RecInstrument()], **extra, **kw)
 
         trio.run = run  # in the forked child only
         return TrioEventLoop(), None
     if kind == "zmq":
-        from urwid.event_loop.zmq_loop import ZMQEventLoop
+        from urwid.event_loop import zmq_loop as _zl
 
-        lp = ZMQEventLoop()
+        lp = _zl.ZMQEventLoop()
         real = lp._poller
+        if vclock is not None:
+
+            def vsleep(d):  # a loop that sleeps is a loop that blocks: recorded like a wait
+                ev = rec(d)
+                vclock.advance(d)
+                ev[5] = now()
+
+            _zl.time = types.SimpleNamespace(time=vclock.time, sleep=vsleep)
 
         class RecPoller:
             def register(self, *a, **kw):
@@ -582,8 +670,15 @@ def _build_real(kind, trace, now, scen=None):
                 return real.unregister(*a, **kw)
 
             def poll(self, timeout=None):
-                ev = rec(None if timeout is None or timeout < 0 else timeout / 1000.0)
-                r = real.poll(timeout)
+                forever = timeout is None or timeout < 0
+                ev = rec(None if forever else timeout / 1000.0)
+                if vclock is None:
+                    r = real.poll(timeout)
+                else:
+                    # pyzmq truncates the timeout to whole milliseconds, and returns at once (whatever
+                    # the timeout) while nothing is registered -- both checked against the installed pyzmq
+                    r = real.poll(0)
+                    vclock.waited(None if forever else int(timeout) / 1000.0, bool(r), registered=bool(real.sockets))
                 ev[5] = now()
                 return r
 
@@ -606,14 +701,17 @@ def _horizon(scen):
     return tot + 2
 
 
-def _real_child(kind, scen, out_fd):
-    """Body of the forked child: run the script in real time, write the trace as JSON to out_fd."""
+def _real_child(kind, scen, out_fd, vtime=True):
+    """Body of the forked child: run the script (vtime: on a virtual clock, see _build_real; else in
+    real time, unit UNIT), write the trace as JSON to out_fd."""
     logging.disable(logging.CRITICAL)
     devnull = os.open(os.devnull, os.O_WRONLY)
     os.dup2(devnull, 1)
     os.dup2(devnull, 2)
     trace = []
-    now = _time.monotonic
+    vclock = VClock() if vtime else None
+    now = vclock.time if vtime else _time.monotonic
+    unit = 1.0 if vtime else UNIT
     done = threading.Event()
     runno = [1]
 
@@ -626,16 +724,23 @@ def _real_child(kind, scen, out_fd):
             n = os.write(out_fd, data)
             data = data[n:]
 
+    def bail(reason):
+        dump(["end", runno[0], "abort:" + reason])
+        os._exit(0)
+
     def watchdog():
-        if not done.wait(12.0):
-            dump(["end", runno[0], "abort:run() still running after 12 s"])
-            os._exit(0)
+        # wall-clock safety net only (a loop spinning without ever calling its blocking primitive)
+        if not done.wait(12.0 if not vtime else 30.0):
+            bail("run() still running after 12 s" if not vtime else "run() still running after 30 s of wall time")
 
     threading.Thread(target=watchdog, daemon=True).start()
     try:
-        loop, _ = _build_real(kind, trace, now, scen)
+        if vtime:
+            vclock.bail = bail
+        loop, _ = _build_real(kind, trace, now, scen, vclock)
         pipes = _RealPipes()
-        drv = Driver(loop, scen, trace, now, pipes, UNIT, lambda d: _time.sleep(d * UNIT), pipes.fd)
+        sleeper = (lambda d: vclock.advance(d)) if vtime else (lambda d: _time.sleep(d * UNIT))
+        drv = Driver(loop, scen, trace, now, pipes, unit, sleeper, pipes.fd)
         for op in scen.get("pre", ()):
             drv.do(op, "pre")
         stop_at = _horizon(scen)
@@ -655,9 +760,9 @@ def _real_child(kind, scen, out_fd):
                 trace.append(["ret", "Z#2", now(), "exit#stop2"])
                 raise e
 
-            lo = now() + 2 * UNIT
-            loop.alarm(2 * UNIT, stop2)
-            trace.append(["alarm", "pre", "Z#2", 2, lo, now() + 2 * UNIT])
+            lo = now() + 2 * unit
+            loop.alarm(2 * unit, stop2)
+            trace.append(["alarm", "pre", "Z#2", 2, lo, now() + 2 * unit])
             drv.run(2)
         done.set()
         dump()
@@ -667,9 +772,10 @@ def _real_child(kind, scen, out_fd):
     os._exit(0)
 
 
-def run_real_many(tasks, par=10, timeout=20.0):
+def run_real_many(tasks, par=10, timeout=45.0, vtime=True):
     """tasks: list of (kind, scen).  Forks one child per task (at most `par` at a time) and returns
-    the list of traces (None when a child died without a trace)."""
+    the list of traces (None when a child died without a trace).  The timeout is a wall-clock safety
+    net only (a vtime child needs milliseconds of CPU; generous so that a loaded machine cannot hit it)."""
     results = [None] * len(tasks)
     pending = list(enumerate(tasks))[::-1]
     active = {}  # read fd -> [idx, pid, chunks, deadline]
@@ -681,7 +787,7 @@ def run_real_many(tasks, par=10, timeout=20.0):
             if pid == 0:
                 os.close(r)
                 try:
-                    _real_child(kind, scen, w)
+                    _real_child(kind, scen, w, vtime)
                 finally:
                     os._exit(1)
             os.close(w)
@@ -725,10 +831,11 @@ def _thr(kind):
     return 1.0 / 256 + 1e-4 if kind == "twisted" else 0.0
 
 
-def judge_real(kind, trace):
+def judge_real(kind, trace, vtime=True):
     if trace is None:
         return {"viol": {**{c: [] for c in CLAUSES}, "exc": ["the child process produced no trace (crashed or was killed)"]}, "used": dict.fromkeys(CLAUSES, True), "notes": []}
-    return judge(trace, thr=_thr(kind), tol=0.002, strict=False, have_ready=False, rerun_exc_only=True)
+    # vtime: the clock is exact (tol only absorbs float rounding of now + (due - now)); real time: 2 ms
+    return judge(trace, thr=_thr(kind), tol=1e-6 if vtime else 0.002, strict=False, have_ready=False, rerun_exc_only=True)
 
 
 # ----------------------------------------------------------------------------------------------
@@ -962,6 +1069,11 @@ def gen_real(tier):
     out.append(mk((1, 1), (), 0, acts={"A0": {1: [("raise", "value")]}, "A1": {1: [("raise", "value")]}}))
     out.append(mk((), ((0, 2),), 1, noread={0: 1}))
     out.append(mk((1,), ((0, 0),), 1, acts={"A0": {1: [("write", 0)]}}))
+    # time passes between alarm() and run(): A0 is due at 2, run() starts at 1, A1 (overdue) registers
+    # A2 due at 2.5 -- a loop that counts an alarm's delay from the start of run() serves A2 before A0.
+    # (The real-time boards showed this by accident, through the start-up time of the library; on the
+    # virtual clock the gap has to be scripted.)
+    out.append(mk((2, 0), (), 1, pre_extra=[("sleep", 1)], acts={"A1": {1: [("alarm", 2, 1.5)]}}))
     if tier != "quick":
         for s in gen_exc_types(["runtime", "stopiter", "oserror", "interrupted", "keyboard", "base"]):
             out.append(s)
@@ -1090,30 +1202,33 @@ def _run_virtual_board(kind, label, tier, seed, fams, procs):
     return board, dict(counts)
 
 
-def _run_real_board(kind, tier, scens, par):
-    label = f"{kind}-realtime"
-    board = _Board(label, f"real {kind} loop in real time (unit {UNIT}s, os.pipe), blocking primitive observed; failures are re-run twice and carry seen_in_runs k/3", f"{len(scens)} scripts on 3 alarms (delays 1,1,2), 2 pipes, 2 idle callbacks: one acting callback + hand-picked two-actor / lateness scripts", False)
+def _run_real_board(kind, tier, scens, par, vtime=True):
+    label = f"{kind}-vtime" if vtime else f"{kind}-realtime"
+    if vtime:
+        rule = f"real {kind} loop (its real scheduler, real os.pipe descriptors) on a virtual clock: the library's clock is a counter and its blocking primitive polls without blocking, a wait with nothing readable lasting exactly its timeout; load-independent"
+    else:
+        rule = f"real {kind} loop in real time (unit {UNIT}s, os.pipe), blocking primitive observed; failures are re-run twice and carry seen_in_runs k/3; INFORMATIONAL (depends on the wall clock)"
+    board = _Board(label, rule, f"{len(scens)} scripts on 3 alarms (delays 1,1,2), 2 pipes, 2 idle callbacks: one acting callback + hand-picked two-actor / lateness scripts", False)
     if kind == "trio":  # both batch orders of trio's scheduler (see _build_real)
         scens = [dict(s, order=o) if o == "desc" else s for s in scens for o in ("asc", "desc")]
-    traces = run_real_many([(kind, s) for s in scens], par)
-    res = [judge_real(kind, t) for t in traces]
-    # The oracle uses no timing except "not before the due time", so a violation seen once is a fact;
-    # failing scripts are nevertheless re-run twice: the count is reported with the failure, and a
-    # failure that consists only of a missing / aborted run (child killed on a loaded machine) is
-    # dropped when the re-runs are clean.
+    traces = run_real_many([(kind, s) for s in scens], par, vtime=vtime)
+    res = [judge_real(kind, t, vtime) for t in traces]
+    # Failing scripts are re-run twice: the count is reported with the failure (vtime boards are
+    # deterministic: always 3/3), and a failure that consists only of a missing / aborted run (child
+    # killed by the wall-clock safety net on an overloaded machine) is dropped when the re-runs are clean.
     bad = [i for i, r in enumerate(res) if any(r["viol"].values())]
     repro = {i: 1 for i in bad}
     flaky = 0
     for _attempt in range(2):
         if not bad:
             break
-        again = run_real_many([(kind, scens[i]) for i in bad], par)
+        again = run_real_many([(kind, scens[i]) for i in bad], par, vtime=vtime)
         for i, t in zip(bad, again):
-            r2 = judge_real(kind, t)
+            r2 = judge_real(kind, t, vtime)
             if any(r2["viol"].values()):
                 repro[i] += 1
     for i in bad:
-        infra = all("did not finish" in m or "produced no trace" in m for c in CLAUSES for m in res[i]["viol"][c])
+        infra = all("did not finish: abort:run() still running" in m or "produced no trace" in m for c in CLAUSES for m in res[i]["viol"][c])
         if repro[i] == 1:
             flaky += 1
             if infra:
@@ -1126,24 +1241,40 @@ def _run_real_board(kind, tier, scens, par):
     return board, flaky, dict(notes)
 
 
+REAL_KINDS = ("select", "asyncio", "tornado", "twisted", "trio", "zmq")
+
+# The real-time boards (thorough tier only) sleep on the wall clock (unit 30 ms): whether two alarms
+# 30 ms apart are "overdue together" when the child is finally scheduled, and hence what an
+# arbitrary-order scheduler does with them, depends on machine load (seen: trio-realtime/alarm failing
+# in 1 of 3 runs of the *passive* script).  The statement is decided on the vtime boards, which run the
+# same scripts on the same loops deterministically; the real-time runs are kept as observations.
+INFORMATIONAL = {
+    f"C13/{_k}-realtime/{_c}": "real-time run (30 ms units, real sleeps): outcome depends on wall-clock scheduling of the child process; the same scripts are decided deterministically by C13/" + _k + "-vtime/" + _c
+    for _k in REAL_KINDS
+    for _c in CLAUSES
+}
+
+
 def run(tier="quick", seed=0):
     quick = tier == "quick"
     procs = 1 if quick else 14
     checks = []
     info = {}
     avail = available_loops()
-    # real-time boards first: they fork one child per script, which is cheap while this process is small
+    # forked boards first: they fork one child per script, which is cheap while this process is small
     real_checks = []
     scens = gen_real(tier)
     par = 10 if quick else 12
-    for kind in ("select", "asyncio", "tornado", "twisted", "trio", "zmq"):
+    for kind in REAL_KINDS:
         if avail.get(kind) is not None:
-            info[f"{kind}-realtime"] = {"skipped": avail[kind]}
+            info[f"{kind}-vtime"] = {"skipped": avail[kind]}
             continue
-        t1 = _time.time()
-        b, flaky, notes = _run_real_board(kind, tier, scens, par)
-        real_checks += b.results()
-        info[f"{kind}-realtime"] = {"scripts": len(scens) * (2 if kind == "trio" else 1), "seen_once_only_on_rerun": flaky, "failure_kinds": {f"{c}: {m}": n for (c, m), n in b.fail_kinds.items()}, "notes": notes, "wall_s": round(_time.time() - t1, 1)}
+        # quick tier: virtual time only (no wall-clock dependence at all); thorough: also real time (INFORMATIONAL)
+        for vtime in (True,) if quick else (True, False):
+            t1 = _time.time()
+            b, flaky, notes = _run_real_board(kind, tier, scens, par, vtime)
+            real_checks += b.results()
+            info[b.label] = {"scripts": len(scens) * (2 if kind == "trio" else 1), "seen_once_only_on_rerun": flaky, "failure_kinds": {f"{c}: {m}": n for (c, m), n in b.fail_kinds.items()}, "notes": notes, "wall_s": round(_time.time() - t1, 1)}
     t0 = _time.time()
     board, counts = _run_virtual_board("select", "select-virtual", tier, seed, _virtual_families(tier, seed), procs)
     checks += board.results()
@@ -1170,7 +1301,7 @@ def run(tier="quick", seed=0):
     checks += real_checks
     return {
         "checks": checks,
-        "bound": "SelectEventLoop (and ZMQEventLoop) under a virtual clock: all scripts with <= 3 alarms (delays 0/1/2), <= 2 descriptors, <= 2 idle callbacks, <= 2 acting callbacks (add/remove/raise/sleep/write from within callbacks and before run), both ready orders, clock drift 0 or 1/1024, plus seeded random scripts with <= 4 actors; the same script language in real time against select/asyncio/tornado/twisted/trio/zmq loops",
+        "bound": "SelectEventLoop (and ZMQEventLoop) under a virtual clock: all scripts with <= 3 alarms (delays 0/1/2), <= 2 descriptors, <= 2 idle callbacks, <= 2 acting callbacks (add/remove/raise/sleep/write from within callbacks and before run), both ready orders, clock drift 0 or 1/1024, plus seeded random scripts with <= 4 actors; the same script language against the real select/asyncio/tornado/twisted/trio/zmq loops (real schedulers, real pipes) on a virtual clock",
         "info": info,
     }
 
@@ -1184,12 +1315,13 @@ def replay(check_name, case):
         res = judge(run_virtual(kind, scen))
         bad = res["viol"].get(clause) if clause in res["viol"] else [m for c in CLAUSES for m in res["viol"][c]]
     else:
-        # one observed violation is a fact (the oracle does not depend on timing); a race inside a
-        # third-party scheduler need not show on every run, so up to 5 runs are made
+        # vtime boards are deterministic (one run decides); a real-time race inside a third-party
+        # scheduler need not show on every run, so up to 5 runs are made there
+        vtime = not label.endswith("-realtime")
         bad = []
-        for _ in range(5):
-            (tr,) = run_real_many([(kind, scen)], 1)
-            res = judge_real(kind, tr)
+        for _ in range(1 if vtime else 5):
+            (tr,) = run_real_many([(kind, scen)], 1, vtime=vtime)
+            res = judge_real(kind, tr, vtime)
             bad = res["viol"].get(clause, [])
             if bad:
                 break
